@@ -17,6 +17,16 @@ var VerifHook func(ev string, kv ...interface{})
 
 func vhook(ev string, kv ...interface{}) {
 	if h := VerifHook; h != nil {
+		// call sites pass the *table; the hook gets its name
+		if len(kv) > 0 {
+			if t, ok := kv[0].(*table); ok {
+				name := ""
+				if t != nil && t.TableOpts != nil {
+					name = t.Name
+				}
+				kv[0] = name
+			}
+		}
 		h(ev, kv...)
 	}
 }
